@@ -219,7 +219,10 @@ func check(c Case) error {
 	}
 	// independent reference for fragment renders: gofmt of the raw text the same Code renders as
 	// the only item of a NoFormat File
+	// rejected is set when gofmt does not accept the raw text the code renders to
+	rejected := false
 	fragRef := func(code jen.Code) ([]byte, bool) {
+		rejected = false
 		f := jen.NewFile("p")
 		f.NoFormat = true
 		f.Add(jen.Id("ZZFRAGMENTSTART"))
@@ -235,6 +238,7 @@ func check(c Case) error {
 		raw := bytes.TrimPrefix(buf.Bytes()[i+len("ZZFRAGMENTSTART"):], []byte("\n"))
 		out, err := format.Source(raw)
 		if err != nil {
+			rejected = len(bytes.TrimSpace(raw)) > 0
 			return nil, false
 		}
 		return out, true
@@ -292,8 +296,12 @@ func check(c Case) error {
 		okw := &faultWriter{}
 		okErr := tg.render(okw)
 		if okErr == nil && tg.code != nil {
-			if want, ok := fragRef(tg.code()); ok && !bytes.Equal(want, okw.buf.Bytes()) {
+			want, ok := fragRef(tg.code())
+			if ok && !bytes.Equal(want, okw.buf.Bytes()) {
 				return fmt.Errorf("%s: success reported, the writer received %q, but gofmt of the raw rendering of the same code is %q", tg.name, okw.buf.Bytes(), want)
+			}
+			if !ok && rejected {
+				return fmt.Errorf("%s: success reported (the writer received %q), but gofmt rejects the raw rendering of the same code: the failure was swallowed", tg.name, okw.buf.Bytes())
 			}
 		}
 		if okErr == nil && len(okw.buf.Bytes()) > 1 {
@@ -663,6 +671,40 @@ func check(c Case) error {
 		cell("File.Save", ff.name, valid)
 		if aerr := ff.after(p, err); aerr != nil {
 			return fmt.Errorf("File.Save, %s: %v", ff.name, aerr)
+		}
+	}
+	// relative names: a name is resolved against the directory the process is in when Save is called
+	if valid {
+		if err := relativeSaves(build, refBuf.Bytes(), dir); err != nil {
+			return err
+		}
+		cell("File.Save", "relative name, before and after a change of directory", true)
+	}
+	return nil
+}
+
+// relativeSaves saves under a relative name in one directory, changes the working directory, and saves
+// under a relative name again (checks run one at a time in this process; the directory is restored).
+func relativeSaves(build func() (*jen.File, *recipe.Builder), want []byte, dir string) error {
+	back, err := os.Getwd()
+	if err != nil {
+		return nil
+	}
+	defer os.Chdir(back)
+	for i, sub := range []string{"first", "second", "third"} {
+		d := filepath.Join(dir, "rel-"+sub)
+		if os.MkdirAll(filepath.Join(d, "gen"), 0o755) != nil || os.Chdir(d) != nil {
+			return nil
+		}
+		name := []string{"out.go", filepath.Join("gen", "out.go"), "./out.go"}[i]
+		f, _ := build()
+		var serr error
+		if perr := hx.Safe(func() error { serr = f.Save(name); return nil }); perr != nil {
+			return fmt.Errorf("File.Save(%q) in %s: %v", name, d, perr)
+		}
+		got, rerr := os.ReadFile(filepath.Join(d, name))
+		if serr != nil || rerr != nil || !bytes.Equal(got, want) {
+			return fmt.Errorf("File.Save(%q) called in directory rel-%s (after saves under relative names in other directories): err=%v; the file it names holds %q (read error %v), want the rendered output", name, sub, serr, got, rerr)
 		}
 	}
 	return nil
